@@ -1,5 +1,5 @@
 (* Proofs about model/AsyncPool.v (C12: the AsyncPool bookkeeping of device/src/u3v/async_read.rs,
-   with failing event handling and slow cancellations). *)
+   with failing event handling, slow cancellations and other threads using libusb's events lock). *)
 From Cam Require Import Outcome Bytes AsyncPool.
 
 Definition accepted_by_libusb (sl : slot) : Prop := sl_st sl <> LUnknown.
@@ -27,12 +27,57 @@ Definition slot_ok (sl : slot) : Prop :=
   match sl_st sl with LFlight st _ _ _ _ => status_ok st | LDone st _ => status_ok st | LUnknown => True end.
 Definition op_ok (o : Z * Z) : Prop := fst o = 9 -> ev_ok (snd o).
 
+(* the lock plan still to come *)
+Definition lkp (s : pstate) : list lockent := lk_plan (p_lk s).
+
 (* the rounds the clean-up loop of Drop can still take *)
-Definition drop_measure (s : pstate) (q : list slot) : nat := (length q + lat_sum q + failures (p_evs s))%nat.
+Definition drop_measure (s : pstate) (q : list slot) : nat :=
+  (length q + lat_sum q + failures (p_evs s) + actives (lkp s))%nat.
 
 Ltac pf := cbn [p_plan p_evs p_epoch p_pool p_calls p_accepted p_refused p_completed p_notfound p_evcalls p_freed
-                p_reaped sl_no sl_buf sl_st set_pool ev_call add_completed add_notfound next_epoch push_ev pop_front
-                free_pool mkslot] in *.
+                p_reaped p_lk sl_no sl_buf sl_st set_pool ev_call add_completed add_notfound next_epoch push_ev pop_front
+                free_pool mkslot set_lk tick lk_tick lk_own lk_contended lk_logc lk_push
+                lk_plan lk_clock lk_rounds lk_fail lk_waits lk_idle lk_log lkp andb negb] in *.
+
+(* ---- the call log of the lock protocol ---------------------------------------------------------------
+
+   newest call first.  Every libusb_wait_for_event call was made while an event handler was active and
+   directly follows a libusb_event_handler_active call that answered 1. *)
+Fixpoint log_ok (l : list lcall) : Prop :=
+  match l with
+  | [] => True
+  | CWait a :: r => a = true /\ (exists r', r = CActive true :: r') /\ log_ok r
+  | _ :: r => log_ok r
+  end.
+
+(* the same, said without the recursion: wherever a wait stands in the log *)
+Definition waits_follow_active (l : list lcall) : Prop :=
+  forall l1 a l2, l = l1 ++ CWait a :: l2 -> a = true /\ exists l3, l2 = CActive true :: l3.
+
+Definition LInv (s : pstate) : Prop := lk_idle (p_lk s) = 0 /\ log_ok (lk_log (p_lk s)).
+
+Lemma log_ok_spec l : log_ok l -> waits_follow_active l.
+Proof.
+  unfold waits_follow_active. intros H l1. revert l H. induction l1 as [|c l1 IH]; intros l H a l2 E; subst l.
+  - cbn [app log_ok] in H. destruct H as [H1 [H2 _]]. auto.
+  - cbn [app] in H. apply (IH (l1 ++ CWait a :: l2)); [|reflexivity].
+    destruct c; cbn [log_ok] in H; try exact H. apply H.
+Qed.
+
+Lemma log_ok_no_idle_wait l : log_ok l -> ~ In (CWait false) l.
+Proof.
+  intros H Hi. apply in_split in Hi. destruct Hi as [l1 [l2 E]].
+  destruct (log_ok_spec l H l1 false l2 E) as [X _]. discriminate.
+Qed.
+
+(* the event handler that a round of the plan leaves to this thread *)
+Lemma lk_round_tl k :
+  match lk_round k with
+  | LkOwn => contended (tl (lk_plan k)) = contended (lk_plan k) /\ actives (tl (lk_plan k)) = actives (lk_plan k)
+  | LkGone => S (contended (tl (lk_plan k))) = contended (lk_plan k) /\ actives (tl (lk_plan k)) = actives (lk_plan k)
+  | LkActive _ => S (contended (tl (lk_plan k))) = contended (lk_plan k) /\ S (actives (tl (lk_plan k))) = actives (lk_plan k)
+  end.
+Proof. unfold lk_round, contended, actives. destruct (lk_plan k) as [|[| |n] r]; cbn; auto. Qed.
 
 (* ---- event handling and cancellation keep the queue, its order and what libusb accepted ---------- *)
 
@@ -131,56 +176,119 @@ Qed.
 Lemma reap_none_front sl r : reap sl = None -> front_done (sl :: r) = false.
 Proof. unfold reap, front_done. destruct (sl_st sl); auto. discriminate. Qed.
 
-Lemma poll_wait_facts fuel : forall s q s' q' w, (nfl q < fuel)%nat -> Forall accepted_by_libusb q ->
-  poll_wait fuel s q = (s', q', w) ->
+Lemma poll_wait_facts fuel : forall s q rem s' q' w, (nfl q + contended (lkp s) < fuel)%nat -> Forall accepted_by_libusb q ->
+  poll_wait true fuel s q rem = (s', q', w) ->
   core_eq s s' /\ map sl_no q' = map sl_no q /\ Forall accepted_by_libusb q' /\ (Forall ready q -> Forall ready q') /\
   (lat_sum q' <= lat_sum q)%nat /\ (failures (p_evs s') <= failures (p_evs s))%nat /\
   (forall P : Z -> Prop, Forall P (p_evs s) -> Forall P (p_evs s')) /\ (Forall slot_ok q -> Forall slot_ok q') /\
+  (actives (lkp s') <= actives (lkp s))%nat /\
   match w with
   | WDone => front_done q' = true
-  | WTimeout => q <> [] -> Forall ready q ->
-                (failures (p_evs s') < failures (p_evs s))%nat \/ (lat_sum q' < lat_sum q)%nat
+  | WTimeout => q <> [] -> Forall ready q -> 0 < rem ->
+                (failures (p_evs s') < failures (p_evs s))%nat \/ (lat_sum q' < lat_sum q)%nat \/
+                (actives (lkp s') < actives (lkp s))%nat
   | WErr c => (failures (p_evs s') < failures (p_evs s))%nat /\ In c (p_evs s) /\ c <> 0
   end.
 Proof.
-  induction fuel as [|f IH]; intros s q s' q' w Hn Ha H; [lia|].
-  cbn [poll_wait] in H. destruct (Z.eqb_spec (hd 0 (p_evs s)) 0) as [E0|E0].
-  - pose proof (events_facts (p_epoch s) q) as He. destruct (events (p_epoch s) q) as [q1 n]. cbn [fst snd] in He.
-    destruct He as [E1 [E2 [E3 [E4 [E5 [E6 [E7 E8]]]]]]].
-    destruct (front_done q1) eqn:Ed.
-    { inversion H; subst. unfold core_eq. pf. repeat split; auto; try apply failures_tl;
-        try (intros ? ?; apply Forall_tl; assumption). }
-    destruct (Z.eqb_spec n 0) as [N0|N0].
-    { inversion H; subst. unfold core_eq. pf. repeat split; auto; try apply failures_tl;
-        try (intros ? ?; apply Forall_tl; assumption);
-      try (intros Hq Hr; right; apply E8; auto). }
-    assert (Hn1 : (nfl q1 < f)%nat) by lia.
-    destruct (IH _ _ _ _ _ Hn1 (E2 Ha) H) as [C [M [A [R [L [F [P [O W]]]]]]]].
-    unfold core_eq in *. pf. destruct C as [C1 [C2 [C3 [C4 [C5 C6]]]]].
-    pose proof (failures_tl (p_evs s)) as Ft.
-    repeat split; auto; try congruence; try lia.
-    + intros P0 HP. apply P, Forall_tl, HP.
-    + destruct w.
+  induction fuel as [|f IH]; intros s q rem s' q' w Hn Ha H; [lia|].
+  cbn [poll_wait] in H. destruct (Z.leb_spec rem 0) as [Hrem|Hrem].
+  { inversion H; subst. unfold core_eq. repeat split; auto. intros; lia. }
+  pose proof (lk_round_tl (p_lk s)) as Hrt. unfold lkp in *.
+  destruct (lk_round (p_lk s)) as [| |n0] eqn:El.
+  - (* this thread handles the events *)
+    destruct Hrt as [Rc Ra]. pf.
+    destruct (Z.eqb_spec (hd 0 (p_evs s)) 0) as [E0|E0].
+    + pose proof (events_facts (p_epoch s) q) as He. destruct (events (p_epoch s) q) as [q1 n]. cbn [fst snd] in He.
+      destruct He as [E1 [E2 [E3 [E4 [E5 [E6 [E7 E8]]]]]]].
+      destruct (front_done q1) eqn:Ed.
+      { inversion H; subst. unfold core_eq. pf. rewrite Ra. repeat split; auto; try apply failures_tl;
+          try (intros ? ?; apply Forall_tl; assumption). }
+      destruct (Z.eqb_spec n 0) as [N0|N0].
+      { inversion H; subst. unfold core_eq. pf. rewrite Ra. repeat split; auto; try apply failures_tl;
+          try (intros ? ?; apply Forall_tl; assumption);
+          try (intros Hq Hr _; right; left; apply E8; auto). }
+      assert (Hn1 : (nfl q1 + contended (lk_plan (p_lk (add_completed (ev_call (set_lk s (lk_own (p_lk s)))) n))) < f)%nat).
+      { pf. rewrite Rc. lia. }
+      destruct (IH _ _ _ _ _ _ Hn1 (E2 Ha) H) as [C [M [A [R [L [F [P [O [Ac W]]]]]]]]].
+      unfold core_eq in *. pf. destruct C as [C1 [C2 [C3 [C4 [C5 C6]]]]].
+      pose proof (failures_tl (p_evs s)) as Ft. rewrite Ra in *.
+      split; [repeat split; congruence|]. split; [congruence|]. split; [exact A|]. split; [auto|]. split; [lia|].
+      split; [lia|]. split; [intros P0 HP; apply P, Forall_tl, HP|]. split; [auto|]. split; [exact Ac|].
+      destruct w.
       * exact W.
-      * intros Hq Hr. assert (Hq1 : q1 <> []).
+      * intros Hq Hr Hpos. assert (Hq1 : q1 <> []).
         { intros X; subst q1. destruct q; [congruence|discriminate]. }
-        destruct (W Hq1 (E3 Hr)); [left|right]; lia.
+        destruct (W Hq1 (E3 Hr) Hpos) as [X|[X|X]]; [left|right; left|right; right]; lia.
       * destruct W as [W1 [W2 W3]]. repeat split; auto; try lia.
         destruct (p_evs s); cbn [tl] in W2; [destruct W2|now right].
-  - pose proof (failures_tl_lt _ E0) as Fl. pose proof (hd_in _ E0) as Hi.
-    destruct (hd 0 (p_evs s) =? -7); inversion H; subst; unfold core_eq; pf;
-      repeat split; auto; try lia; try (intros ? ?; apply Forall_tl; assumption).
+    + pose proof (failures_tl_lt _ E0) as Fl. pose proof (hd_in _ E0) as Hi.
+      destruct (hd 0 (p_evs s) =? -7); inversion H; subst; unfold core_eq; pf; rewrite Ra;
+        repeat split; auto; try lia; try (intros ? ?; apply Forall_tl; assumption).
+  - (* the holder of the lock has left: next round *)
+    destruct Hrt as [Rc Ra].
+    assert (Hn1 : (nfl q + contended (lk_plan (p_lk (set_lk s (lk_contended (p_lk s) true false false)))) < f)%nat).
+    { pf. lia. }
+    destruct (IH _ _ _ _ _ _ Hn1 Ha H) as [C [M [A [R [L [F [P [O [Ac W]]]]]]]]].
+    unfold core_eq in *. pf. rewrite Ra in *.
+    split; [exact C|]. split; [exact M|]. split; [exact A|]. split; [exact R|]. split; [exact L|]. split; [exact F|].
+    split; [exact P|]. split; [exact O|]. split; [exact Ac|]. exact W.
+  - (* another thread handles the events *)
+    destruct Hrt as [Rc Ra].
+    destruct (Z.ltb_spec (Z.max 0 n0) rem) as [Hlt|Hge].
+    + pose proof (events_facts (p_epoch s) q) as He. destruct (events (p_epoch s) q) as [q1 n]. cbn [fst snd] in He.
+      destruct He as [E1 [E2 [E3 [E4 [E5 [E6 [E7 E8]]]]]]].
+      destruct (front_done q1) eqn:Ed.
+      { inversion H; subst. unfold core_eq. pf. repeat split; auto; lia. }
+      match type of H with poll_wait true f ?s2 q1 _ = _ => assert (Hn1 : (nfl q1 + contended (lk_plan (p_lk s2)) < f)%nat) by (pf; lia) end.
+      destruct (IH _ _ _ _ _ _ Hn1 (E2 Ha) H) as [C [M [A [R [L [F [P [O [Ac W]]]]]]]]].
+      unfold core_eq in *. pf. destruct C as [C1 [C2 [C3 [C4 [C5 C6]]]]].
+      split; [repeat split; congruence|]. split; [congruence|]. split; [exact A|]. split; [auto|]. split; [lia|].
+      split; [lia|]. split; [exact P|]. split; [auto|]. split; [lia|].
+      destruct w.
+      * exact W.
+      * intros _ _ _. right; right. lia.
+      * exact W.
+    + inversion H; subst. unfold core_eq. pf. repeat split; auto; try lia.
 Qed.
 
 (* the fuel `poll` gives to the wait is never used up: more fuel changes nothing *)
-Lemma poll_wait_fuel fuel : forall fuel' s q, (nfl q < fuel)%nat -> (nfl q < fuel')%nat ->
-  poll_wait fuel s q = poll_wait fuel' s q.
+Lemma poll_wait_fuel fuel : forall fuel' s q rem, (nfl q + contended (lkp s) < fuel)%nat -> (nfl q + contended (lkp s) < fuel')%nat ->
+  poll_wait true fuel s q rem = poll_wait true fuel' s q rem.
 Proof.
-  induction fuel as [|f IH]; intros fuel' s q H1 H2; [lia|]. destruct fuel' as [|f']; [lia|].
-  cbn [poll_wait]. destruct (hd 0 (p_evs s) =? 0); [|reflexivity].
-  pose proof (events_facts (p_epoch s) q) as He. destruct (events (p_epoch s) q) as [q1 n]. cbn [fst snd] in He.
-  destruct He as [_ [_ [_ [E4 [E5 _]]]]].
-  destruct (front_done q1); [reflexivity|]. destruct (Z.eqb_spec n 0); [reflexivity|]. apply IH; lia.
+  induction fuel as [|f IH]; intros fuel' s q rem H1 H2; [lia|]. destruct fuel' as [|f']; [lia|].
+  cbn [poll_wait]. destruct (rem <=? 0); [reflexivity|].
+  pose proof (lk_round_tl (p_lk s)) as Hrt. unfold lkp in *.
+  destruct (lk_round (p_lk s)) as [| |n0] eqn:El; destruct Hrt as [Rc Ra].
+  - pf. destruct (hd 0 (p_evs s) =? 0); [|reflexivity].
+    pose proof (events_facts (p_epoch s) q) as He. destruct (events (p_epoch s) q) as [q1 n]. cbn [fst snd] in He.
+    destruct He as [_ [_ [_ [E4 [E5 _]]]]].
+    destruct (front_done q1); [reflexivity|]. destruct (Z.eqb_spec n 0); [reflexivity|]. apply IH; pf; lia.
+  - apply IH; pf; lia.
+  - destruct (Z.max 0 n0 <? rem); [|reflexivity].
+    pose proof (events_facts (p_epoch s) q) as He. destruct (events (p_epoch s) q) as [q1 n]. cbn [fst snd] in He.
+    destruct He as [_ [_ [_ [E4 [E5 _]]]]].
+    destruct (front_done q1); [reflexivity|]. apply IH; pf; lia.
+Qed.
+
+(* the lock protocol: no round of the wait calls libusb_wait_for_event unless libusb_event_handler_active has just
+   answered 1 *)
+Lemma poll_wait_linv fuel : forall s q rem s' q' w, LInv s -> poll_wait true fuel s q rem = (s', q', w) -> LInv s'.
+Proof.
+  induction fuel as [|f IH]; intros s q rem s' q' w Hi H; cbn [poll_wait] in H; [inversion H; subst; exact Hi|].
+  destruct (rem <=? 0); [inversion H; subst; exact Hi|].
+  destruct Hi as [I1 I2].
+  destruct (lk_round (p_lk s)) as [| |n0].
+  - pf. destruct (hd 0 (p_evs s) =? 0).
+    + destruct (events (p_epoch s) q) as [q1 n]. destruct (front_done q1); [inversion H; subst; split; pf; auto|].
+      destruct (n =? 0); [inversion H; subst; split; pf; auto|].
+      apply (IH _ _ _ _ _ _ (conj I1 I2 : LInv (add_completed (ev_call (set_lk s (lk_own (p_lk s)))) n)) H).
+    + destruct (hd 0 (p_evs s) =? -7); inversion H; subst; split; pf; auto.
+  - refine (IH _ _ _ _ _ _ _ H). split; pf; [lia|cbn [log_ok]; exact I2].
+  - assert (Hl : LInv (set_lk s (lk_contended (p_lk s) true true true))).
+    { split; pf; [lia|]. cbn [log_ok]. split; [reflexivity|]. split; [eexists; reflexivity|exact I2]. }
+    destruct (Z.max 0 n0 <? rem); [|inversion H; subst; exact Hl].
+    destruct (events (p_epoch s) q) as [q1 n]. destruct (front_done q1); [inversion H; subst; exact Hl|].
+    refine (IH _ _ _ _ _ _ _ H). exact Hl.
 Qed.
 
 (* ---- poll ------------------------------------------------------------------------------------------ *)
@@ -204,9 +312,10 @@ Proof. unfold reap, lat1. destruct (sl_st sl); try discriminate. reflexivity. Qe
    event-handling error, unreachable!()) and leaves the queue (numbers, order) as it is; a failing poll
    with a positive time-out on a queue of cancelled transfers uses up a failing event-handling call of
    the plan or a round of some cancellation latency *)
-Lemma poll_facts ms s q s' r : poll ms s q = (s', r) -> p_pool s = Some q -> Forall accepted_by_libusb q ->
+Lemma poll_facts ms s q s' r : poll true ms s q = (s', r) -> p_pool s = Some q -> Forall accepted_by_libusb q ->
   p_accepted s' = p_accepted s /\ p_plan s' = p_plan s /\ p_epoch s' = p_epoch s /\ p_freed s' = p_freed s /\
   (failures (p_evs s') <= failures (p_evs s))%nat /\ (forall P : Z -> Prop, Forall P (p_evs s) -> Forall P (p_evs s')) /\
+  (actives (lkp s') <= actives (lkp s))%nat /\
   match r with
   | PReap out => exists sl rest, map sl_no q = sl_no sl :: map sl_no rest /\ p_pool s' = Some rest /\
                               p_reaped s' = p_reaped s ++ [sl_no sl] /\ Forall accepted_by_libusb rest /\
@@ -218,7 +327,8 @@ Lemma poll_facts ms s q s' r : poll ms s q = (s', r) -> p_pool s = Some q -> For
                (Forall ready q -> Forall ready q') /\ (lat_sum q' <= lat_sum q)%nat /\
                (Forall slot_ok q -> Forall slot_ok q') /\
                (q <> [] -> Forall ready q -> 0 < ms ->
-                (failures (p_evs s') < failures (p_evs s))%nat \/ (lat_sum q' < lat_sum q)%nat) /\
+                (failures (p_evs s') < failures (p_evs s))%nat \/ (lat_sum q' < lat_sum q)%nat \/
+                (actives (lkp s') < actives (lkp s))%nat) /\
                (r = PPanic -> q <> [] -> ~ Forall ev_ok (p_evs s))
   end.
 Proof.
@@ -231,9 +341,10 @@ Proof.
       intros Ho. inversion Ho; subst. split; [assumption|]. eapply reap_ok; eassumption.
     + destruct (Z.leb_spec ms 0) as [Hms|Hms].
       { inversion H; subst. repeat split; auto. exists (sl :: q). repeat split; auto; try lia. discriminate. }
-      destruct (poll_wait (S (length (sl :: q))) s (sl :: q)) as [[s1 q1] w] eqn:Ew.
-      assert (Hl : (nfl (sl :: q) < S (length (sl :: q)))%nat) by (pose proof (nfl_le (sl :: q)); lia).
-      destruct (poll_wait_facts _ _ _ _ _ _ Hl Hf Ew) as [C [M [A [R [L [F [P [O W]]]]]]]].
+      destruct (poll_wait true (S (length (sl :: q) + contended (lk_plan (p_lk s)))) s (sl :: q) (ms * 1000)) as [[s1 q1] w] eqn:Ew.
+      assert (Hl : (nfl (sl :: q) + contended (lkp s) < S (length (sl :: q) + contended (lk_plan (p_lk s))))%nat)
+        by (pose proof (nfl_le (sl :: q)); unfold lkp; lia).
+      destruct (poll_wait_facts _ _ _ _ _ _ _ Hl Hf Ew) as [C [M [A [R [L [F [P [O [Ac W]]]]]]]]].
       unfold core_eq in C. destruct C as [C1 [C2 [C3 [C4 [C5 C6]]]]].
       assert (Hq1 : exists sl1 r1, q1 = sl1 :: r1).
       { destruct q1 as [|a b]; [discriminate|eauto]. }
@@ -244,7 +355,8 @@ Proof.
         split; [symmetry; exact M|]. split; [reflexivity|]. split; [now rewrite C5|]. split; [assumption|].
         split; [intros Hr; specialize (R Hr); now inversion R|]. split; [cbn [lat_sum] in L |- *; lia|].
         intros Ho'. specialize (O Ho'). inversion O; subst. split; [assumption|]. eapply reap_ok; eassumption.
-      * inversion H; subst. pf. repeat split; auto. exists (sl1 :: r1). repeat split; auto. discriminate.
+      * inversion H; subst. pf. repeat split; auto. exists (sl1 :: r1). repeat split; auto; [|discriminate].
+        intros Hq Hr Hm. apply W; auto. lia.
       * destruct W as [W1 [W2 W3]].
         destruct (err_class code) as [c|] eqn:Ec; inversion H; subst; pf; repeat split; auto;
           exists (sl1 :: r1); repeat split; auto; try discriminate.
@@ -258,7 +370,7 @@ Qed.
    does, the queue stays a queue of accepted, cancelled transfers, nothing is lost
    (returned ++ pending is unchanged), and the measure drops *)
 Lemma drain_step s q s' r : q <> [] -> Forall accepted_by_libusb q -> Forall ready q -> p_pool s = Some q ->
-  poll 1000 s q = (s', r) ->
+  poll true 1000 s q = (s', r) ->
   exists q', p_pool s' = Some q' /\ Forall accepted_by_libusb q' /\ Forall ready q' /\
     (drop_measure s' q' < drop_measure s q)%nat /\ p_accepted s' = p_accepted s /\ p_freed s' = p_freed s /\
     p_reaped s' ++ map sl_no q' = p_reaped s ++ map sl_no q /\
@@ -266,7 +378,7 @@ Lemma drain_step s q s' r : q <> [] -> Forall accepted_by_libusb q -> Forall rea
     (Forall slot_ok q -> Forall ev_ok (p_evs s) ->
      Forall slot_ok q' /\ Forall ev_ok (p_evs s') /\ r <> PPanic /\ forall out, r = PReap out -> is_panic out = false).
 Proof.
-  intros Hq Ha Hr Hp H. destruct (poll_facts _ _ _ _ _ H Hp Ha) as [A1 [A2 [A3 [A4 [A5 [A6 R]]]]]].
+  intros Hq Ha Hr Hp H. destruct (poll_facts _ _ _ _ _ H Hp Ha) as [A1 [A2 [A3 [A4 [A5 [A6 [A7 R]]]]]]].
   unfold drop_measure. destruct r as [out|out|].
   - destruct R as [sl [rest [M [P1 [R1 [F1 [F2 [L O]]]]]]]]. exists rest.
     assert (Hlen : length q = S (length rest)).
@@ -310,7 +422,7 @@ Proof.
   - cbn [drain]. split; [discriminate|]. split.
     + intros s' E. inversion E; subst. pf. cbn [map]. rewrite app_nil_r. unfold in_flight. cbn. repeat split; auto; lia.
     + intros _ _. eauto.
-  - cbn [drain]. destruct (poll 1000 s (sl :: q)) as [s1 r] eqn:Epoll.
+  - cbn [drain]. destruct (poll true 1000 s (sl :: q)) as [s1 r] eqn:Epoll.
     assert (Hne : sl :: q <> []) by discriminate.
     destruct (drain_step _ _ _ _ Hne Ha Hr Hp Epoll) as [q' [P1 [F1 [F2 [D [A [Fr [Rp [Pl [Ev O]]]]]]]]]].
     assert (Hl' : (drop_measure s1 q' < f)%nat) by lia.
@@ -335,7 +447,7 @@ Lemma drain_fuel fuel : forall fuel' s q, (drop_measure s q < fuel)%nat -> (drop
 Proof.
   induction fuel as [|f IH]; intros fuel' s q H1 H2 Ha Hr Hp; [lia|]. destruct fuel' as [|f']; [lia|].
   destruct q as [|sl q]; [reflexivity|]. cbn [drain].
-  destruct (poll 1000 s (sl :: q)) as [s1 r] eqn:Epoll.
+  destruct (poll true 1000 s (sl :: q)) as [s1 r] eqn:Epoll.
   assert (Hne : sl :: q <> []) by discriminate.
   destruct (drain_step _ _ _ _ Hne Ha Hr Hp Epoll) as [q' [P1 [F1 [F2 [D _]]]]].
   destruct r as [out|out|]; rewrite P1; [destruct (is_panic out); [reflexivity|]| |reflexivity]; apply IH; auto; lia.
@@ -351,7 +463,7 @@ Proof.
   intros Hp Ha. unfold pool_drop. pose proof (cancel_all_facts q) as Hc.
   destruct (cancel_all q) as [q' n]. cbn [fst] in Hc. destruct Hc as [C1 [C2 C3]]. destruct (C2 Ha) as [A R].
   set (s0 := add_notfound (set_pool s (Some q')) n).
-  assert (Hl : (drop_measure s0 q' < drop_fuel s0 q')%nat) by (unfold drop_measure, drop_fuel; lia).
+  assert (Hl : (drop_measure s0 q' < drop_fuel s0 q')%nat) by (unfold drop_measure, drop_fuel, lkp; lia).
   destruct (drain_ready _ s0 q' Hl A R eq_refl) as [D1 [D2 D3]].
   split; [exact D1|]. split.
   - intros s' E. destruct (D2 s' E) as [B1 [B2 [B3 [B4 [B5 B6]]]]]. subst s0. pf. rewrite C1 in B2. repeat split; auto.
@@ -366,7 +478,7 @@ Lemma pool_drop_bound s q fuel : p_pool s = Some q -> Forall accepted_by_libusb 
 Proof.
   intros Hp Ha. unfold pool_drop. pose proof (cancel_all_facts q) as Hc.
   destruct (cancel_all q) as [q' n]. cbn [fst snd] in *. destruct Hc as [C1 [C2 C3]]. destruct (C2 Ha) as [A R].
-  intros Hl. apply drain_fuel; auto; unfold drop_measure, drop_fuel; lia.
+  intros Hl. apply drain_fuel; auto; unfold drop_measure, drop_fuel, lkp; lia.
 Qed.
 
 (* ---- invariant over operation sequences ------------------------------------------------------------- *)
@@ -385,10 +497,10 @@ Definition panic_op (op : Z) (out : list Z) : bool := ((op =? 1) || (op =? 2) ||
 Lemma nums_S k : nums (S k) = nums k ++ [Z.of_nat k].
 Proof. unfold nums. rewrite seq_S, map_app. reflexivity. Qed.
 
-Lemma pinv_init pl evs : PInv (pinit pl evs).
+Lemma pinv_init pl evs lks : PInv (pinit pl evs lks).
 Proof. split; [constructor|]. split; [|reflexivity]. exists 0%nat. split; reflexivity. Qed.
 
-Lemma sinv_init pl evs : Forall plan_ok pl -> Forall ev_ok evs -> SInv (pinit pl evs).
+Lemma sinv_init pl evs lks : Forall plan_ok pl -> Forall ev_ok evs -> SInv (pinit pl evs lks).
 Proof. intros H1 H2. split; [exact H1|]. split; [exact H2|]. constructor. Qed.
 
 Lemma pool_op_inv s op arg s' out : PInv s -> pool_op false s op arg = Some (s', out) -> panic_op op out = false ->
@@ -396,6 +508,7 @@ Lemma pool_op_inv s op arg s' out : PInv s -> pool_op false s op arg = Some (s',
 Proof.
   intros [Ha [[k [Hk Hn]] Hz]] H Hpan. unfold pool_op in H. unfold PInv, pending_of in *.
   destruct (op =? 9); [inversion H; subst; pf; split; [exact Ha|split; [exists k; auto|exact Hz]]|].
+  destruct (op =? 10); [inversion H; subst; pf; split; [exact Ha|split; [exists k; auto|exact Hz]]|].
   destruct (p_pool s) as [q|] eqn:Ep.
   - destruct (op =? 1).
     { unfold submit in H. destruct (match p_plan s with [] => _ | x :: _ => x end) as [code|st ln d cl].
@@ -405,9 +518,9 @@ Proof.
         + exists (S k). split; [lia|]. rewrite map_app, app_assoc, Hn, nums_S. cbn [map sl_no]. now rewrite Hk. }
     destruct (op =? 2).
     { destruct q as [|sl q]; [inversion H; subst; rewrite Ep; split; [exact Ha|split; [exists k; auto|exact Hz]]|].
-      destruct (poll arg (next_epoch s) (sl :: q)) as [s2 r] eqn:Epoll.
+      destruct (poll true arg (next_epoch s) (sl :: q)) as [s2 r] eqn:Epoll.
       assert (Hp2 : p_pool (next_epoch s) = Some (sl :: q)) by exact Ep.
-      destruct (poll_facts _ _ _ _ _ Epoll Hp2 Ha) as [A1 [_ [_ [A4 [_ [_ R]]]]]]. pf.
+      destruct (poll_facts _ _ _ _ _ Epoll Hp2 Ha) as [A1 [_ [_ [A4 [_ [_ [_ R]]]]]]]. pf.
       assert (Hall : PInv s2).
       { unfold PInv, pending_of. destruct r as [o|o|].
         - destruct R as [sl0 [rest [M [P1 [R1 [F1 _]]]]]]. rewrite P1. split; [exact F1|]. split; [|congruence].
@@ -438,7 +551,7 @@ Qed.
 
 Lemma pool_op_total s op arg : PInv s -> pool_op false s op arg <> None.
 Proof.
-  intros [Ha _] H. unfold pool_op, pending_of in *. destruct (op =? 9); [discriminate|].
+  intros [Ha _] H. unfold pool_op, pending_of in *. destruct (op =? 9); [discriminate|]. destruct (op =? 10); [discriminate|].
   destruct (p_pool s) as [q|] eqn:Ep.
   - destruct (op =? 1); [discriminate|]. destruct (op =? 2).
     { destruct q; [discriminate|]. destruct (poll _ _) as [s2 [o|o|]]; discriminate. }
@@ -458,7 +571,7 @@ Proof.
   destruct (completion st ln) as [[n|c]|]; eauto. discriminate.
 Qed.
 
-Lemma poll_out ms s q s' r : poll ms s q = (s', r) ->
+Lemma poll_out rc ms s q s' r : poll rc ms s q = (s', r) ->
   match r with
   | PReap out => is_panic out = false -> exists a b r, out = a :: b :: r
   | PFail out => exists a b r, out = a :: b :: r
@@ -468,7 +581,7 @@ Proof.
   unfold poll. destruct q as [|sl q]; [intros H; inversion H; subst; exact I|].
   destruct (reap sl) as [out|] eqn:Er; [intros H; inversion H; subst; eapply reap_out; eassumption|].
   destruct (ms <=? 0); [intros H; inversion H; subst; eauto|].
-  destruct (poll_wait _ s (sl :: q)) as [[s1 q1] w].
+  destruct (poll_wait rc _ s (sl :: q) _) as [[s1 q1] w].
   destruct w as [| |code].
   - destruct q1 as [|sl1 r1]; [intros H; inversion H; subst; eauto|].
     destruct (reap sl1) as [out|] eqn:Er1; intros H; inversion H; subst; [eapply reap_out; eassumption|eauto].
@@ -484,6 +597,8 @@ Proof.
   destruct (Z.eqb_spec op 9) as [E9|E9].
   { inversion H; subst. pf. split; [|reflexivity]. split; [exact Sp|]. split; [|exact So].
     apply Forall_app. split; [exact Se|]. constructor; [|constructor]. exact (Hop eq_refl). }
+  destruct (Z.eqb_spec op 10) as [E10|E10].
+  { inversion H; subst. pf. split; [|reflexivity]. split; [exact Sp|]. split; [exact Se|exact So]. }
   destruct (p_pool s) as [q|] eqn:Ep.
   - destruct (Z.eqb_spec op 1) as [E1|E1].
     { subst op. cbn [Z.eqb Pos.eqb orb andb]. unfold submit in H.
@@ -497,10 +612,10 @@ Proof.
     destruct (Z.eqb_spec op 2) as [E2|E2].
     { subst op. cbn [Z.eqb Pos.eqb orb andb].
       destruct q as [|sl q]; [inversion H; subst; rewrite Ep; split; [auto|reflexivity]|].
-      destruct (poll arg (next_epoch s) (sl :: q)) as [s2 r] eqn:Epoll.
+      destruct (poll true arg (next_epoch s) (sl :: q)) as [s2 r] eqn:Epoll.
       assert (Hp2 : p_pool (next_epoch s) = Some (sl :: q)) by exact Ep.
-      destruct (poll_facts _ _ _ _ _ Epoll Hp2 Ha) as [_ [A2 [_ [_ [_ [A6 R]]]]]]. pf.
-      pose proof (poll_out _ _ _ _ _ Epoll) as Hout.
+      destruct (poll_facts _ _ _ _ _ Epoll Hp2 Ha) as [_ [A2 [_ [_ [_ [A6 [_ R]]]]]]]. pf.
+      pose proof (poll_out _ _ _ _ _ _ Epoll) as Hout.
       destruct r as [o|o|].
       - destruct R as [sl0 [rest [_ [P1 [_ [_ [_ [_ O]]]]]]]]. destruct (O So) as [O1 O2]. rewrite O2 in H.
         inversion H; subst. rewrite P1. split; [split; [congruence|split; [apply A6, Se|exact O1]]|].
@@ -567,16 +682,16 @@ Qed.
 
 (* ---- statements -------------------------------------------------------------------------------------- *)
 
-Lemma pool_pending_accepted pl evs ops s out : pool_run false (pinit pl evs) ops = Some (s, out, false) ->
+Lemma pool_pending_accepted pl evs lks ops s out : pool_run false (pinit pl evs lks) ops = Some (s, out, false) ->
   forall q, p_pool s = Some q -> Forall accepted_by_libusb q.
 Proof.
-  intros H q Hq. destruct (pool_run_inv _ _ _ _ (pinv_init pl evs) H) as [Ha _].
+  intros H q Hq. destruct (pool_run_inv _ _ _ _ (pinv_init pl evs lks) H) as [Ha _].
   unfold pending_of in Ha. now rewrite Hq in Ha.
 Qed.
 
-Lemma pool_poll_fifo pl evs ops s out : pool_run false (pinit pl evs) ops = Some (s, out, false) ->
+Lemma pool_poll_fifo pl evs lks ops s out : pool_run false (pinit pl evs lks) ops = Some (s, out, false) ->
   exists k, p_accepted s = Z.of_nat k /\ p_reaped s ++ map sl_no (pending_of s) = nums k.
-Proof. intros H. exact (proj1 (proj2 (pool_run_inv _ _ _ _ (pinv_init pl evs) H))). Qed.
+Proof. intros H. exact (proj1 (proj2 (pool_run_inv _ _ _ _ (pinv_init pl evs lks) H))). Qed.
 
 Lemma pool_refused_submit_unchanged s q len code rest : p_plan s = PRefuse code :: rest ->
   let '(s', out) := submit false s q len in
@@ -587,14 +702,14 @@ Proof. intros H. unfold submit. rewrite H. cbn [tl]. pf. repeat split; auto. Qed
 
 (* a poll that does not return a completion - time-out, failing event handling, even the
    unreachable!() on an unknown code - pops nothing and loses nothing *)
-Lemma pool_failed_poll_keeps_pending pl evs ops s out q ms s' r :
-  pool_run false (pinit pl evs) ops = Some (s, out, false) -> p_pool s = Some q ->
-  poll ms s q = (s', r) -> (forall o, r <> PReap o) ->
+Lemma pool_failed_poll_keeps_pending pl evs lks ops s out q ms s' r :
+  pool_run false (pinit pl evs lks) ops = Some (s, out, false) -> p_pool s = Some q ->
+  poll true ms s q = (s', r) -> (forall o, r <> PReap o) ->
   exists q', p_pool s' = Some q' /\ map sl_no q' = map sl_no q /\ length q' = length q /\
              Forall accepted_by_libusb q' /\ p_reaped s' = p_reaped s /\ p_freed s' = p_freed s.
 Proof.
-  intros H Hq Hpoll Hr. pose proof (pool_pending_accepted _ _ _ _ _ H q Hq) as Ha.
-  destruct (poll_facts _ _ _ _ _ Hpoll Hq Ha) as [_ [_ [_ [A4 [_ [_ R]]]]]].
+  intros H Hq Hpoll Hr. pose proof (pool_pending_accepted _ _ _ _ _ _ H q Hq) as Ha.
+  destruct (poll_facts _ _ _ _ _ Hpoll Hq Ha) as [_ [_ [_ [A4 [_ [_ [_ R]]]]]]].
   destruct r as [o|o|]; [exfalso; exact (Hr o eq_refl)| |];
     destruct R as [R1 [q' [P1 [M [F1 _]]]]]; exists q'; repeat split; auto;
     rewrite <- (map_length sl_no q'), M; apply map_length.
@@ -604,25 +719,25 @@ Qed.
    drop_measure rounds of its loop: the transfers pending + the cancellation latencies still to run +
    the failing event-handling calls still in the plan -, and when it has returned every pending
    transfer has been reaped, in submission order, and none was freed while in flight *)
-Lemma pool_drop_terminates pl evs ops s out q : pool_run false (pinit pl evs) ops = Some (s, out, false) ->
+Lemma pool_drop_terminates pl evs lks ops s out q : pool_run false (pinit pl evs lks) ops = Some (s, out, false) ->
   p_pool s = Some q ->
   pool_drop s q <> DHang /\
   (forall s', pool_drop s q = DRet s' ->
      p_pool s' = None /\ p_reaped s' = p_reaped s ++ map sl_no q /\ p_accepted s' = p_accepted s /\ p_freed s' = 0).
 Proof.
-  intros H Hq. pose proof (pool_pending_accepted _ _ _ _ _ H q Hq) as Ha.
+  intros H Hq. pose proof (pool_pending_accepted _ _ _ _ _ _ H q Hq) as Ha.
   destruct (pool_drop_ok s q Hq Ha) as [D1 [D2 _]]. split; [exact D1|].
   intros s' E. destruct (D2 s' E) as [B1 [B2 [B3 [B4 _]]]].
-  destruct (pool_run_inv _ _ _ _ (pinv_init pl evs) H) as [_ [_ Hz]]. repeat split; auto; congruence.
+  destruct (pool_run_inv _ _ _ _ (pinv_init pl evs lks) H) as [_ [_ Hz]]. repeat split; auto; congruence.
 Qed.
 
-Lemma pool_drop_rounds_bound pl evs ops s out q fuel : pool_run false (pinit pl evs) ops = Some (s, out, false) ->
+Lemma pool_drop_rounds_bound pl evs lks ops s out q fuel : pool_run false (pinit pl evs lks) ops = Some (s, out, false) ->
   p_pool s = Some q ->
   let q' := fst (cancel_all q) in
   let s0 := add_notfound (set_pool s (Some q')) (snd (cancel_all q)) in
-  (length q + lat_sum q + failures (p_evs s) < fuel)%nat -> drain fuel s0 q' = pool_drop s q.
+  (length q + lat_sum q + failures (p_evs s) + actives (lk_plan (p_lk s)) < fuel)%nat -> drain fuel s0 q' = pool_drop s q.
 Proof.
-  intros H Hq q' s0 Hl. pose proof (pool_pending_accepted _ _ _ _ _ H q Hq) as Ha.
+  intros H Hq q' s0 Hl. pose proof (pool_pending_accepted _ _ _ _ _ _ H q Hq) as Ha.
   apply pool_drop_bound; auto. fold q' s0. unfold drop_measure. subst s0. pf.
   assert (length q' = length q /\ lat_sum q' = lat_sum q) as [-> ->]; [|exact Hl].
   subst q'. clear. induction q as [|sl q [I1 I2]]; cbn [cancel_all fst length lat_sum]; [auto|].
@@ -631,22 +746,22 @@ Proof.
   destruct (sl_st sl) eqn:Es; inversion E1; subst; pf; rewrite ?Es; reflexivity.
 Qed.
 
-Lemma pool_ops_terminate pl evs ops : pool_run false (pinit pl evs) ops <> None.
+Lemma pool_ops_terminate pl evs lks ops : pool_run false (pinit pl evs lks) ops <> None.
 Proof. apply pool_run_total, pinv_init. Qed.
 
 (* nothing is ever freed while libusb has it in flight, as long as no unreachable!() is hit *)
-Lemma pool_never_frees_in_flight pl evs ops s out : pool_run false (pinit pl evs) ops = Some (s, out, false) ->
+Lemma pool_never_frees_in_flight pl evs lks ops s out : pool_run false (pinit pl evs lks) ops = Some (s, out, false) ->
   p_freed s = 0.
-Proof. intros H. exact (proj2 (proj2 (pool_run_inv _ _ _ _ (pinv_init pl evs) H))). Qed.
+Proof. intros H. exact (proj2 (proj2 (pool_run_inv _ _ _ _ (pinv_init pl evs lks) H))). Qed.
 
 (* and none is hit when the device script stays within what libusb documents *)
-Lemma pool_documented_codes_no_panic pl evs ops s out b : Forall plan_ok pl -> Forall ev_ok evs -> Forall op_ok ops ->
-  pool_run false (pinit pl evs) ops = Some (s, out, b) ->
+Lemma pool_documented_codes_no_panic pl evs lks ops s out b : Forall plan_ok pl -> Forall ev_ok evs -> Forall op_ok ops ->
+  pool_run false (pinit pl evs lks) ops = Some (s, out, b) ->
   b = false /\ forall q, p_pool s = Some q -> exists s', pool_drop s q = DRet s' /\ p_freed s' = 0.
 Proof.
   intros Hp He Ho H.
-  destruct (pool_run_sane _ _ _ _ _ (pinv_init pl evs) (sinv_init _ _ Hp He) Ho H) as [-> [S1 [S2 S3]]].
-  split; [reflexivity|]. intros q Hq. pose proof (pool_pending_accepted _ _ _ _ _ H q Hq) as Ha.
+  destruct (pool_run_sane _ _ _ _ _ (pinv_init pl evs lks) (sinv_init _ _ lks Hp He) Ho H) as [-> [S1 [S2 S3]]].
+  split; [reflexivity|]. intros q Hq. pose proof (pool_pending_accepted _ _ _ _ _ _ H q Hq) as Ha.
   unfold pending_of in S3. rewrite Hq in S3.
   destruct (pool_drop_ok s q Hq Ha) as [_ [D2 D3]]. destruct (D3 S3 S2) as [s' Ed]. exists s'. split; [exact Ed|].
   destruct (D2 s' Ed) as [_ [_ [_ [B4 _]]]]. rewrite B4. eapply pool_never_frees_in_flight; eassumption.
@@ -654,20 +769,198 @@ Qed.
 
 (* pushing onto `pending` before libusb accepted the transfer: one refused submission and the
    drop of the pool never returns *)
-Lemma pool_push_first_wedges : pool_run true (pinit [PRefuse (-11)] []) [(1, 16); (5, 0)] = None.
+Lemma pool_push_first_wedges : pool_run true (pinit [PRefuse (-11)] [] []) [(1, 16); (5, 0)] = None.
 Proof. vm_compute. reflexivity. Qed.
 
 (* a clean-up that polls once per pending transfer instead of until the pool is empty: one
    interrupted event handling (or one slow cancellation) and a transfer is freed in flight, where
    the code's loop reaps it *)
 Lemma pool_rounds_variant_interrupted :
-  exists s q s1 s2, pool_run false (pinit [PAccept 0 8 1000000 0] [-10]) [(1, 16)] = Some (s, [0], false) /\
+  exists s q s1 s2, pool_run false (pinit [PAccept 0 8 1000000 0] [-10] []) [(1, 16)] = Some (s, [0], false) /\
     p_pool s = Some q /\ pool_drop_rounds s q = DRet s1 /\ p_freed s1 = 1 /\
     pool_drop s q = DRet s2 /\ p_freed s2 = 0 /\ p_reaped s2 = [0].
-Proof. do 4 eexists. vm_compute. repeat split; reflexivity. Qed.
+Proof. do 4 eexists. repeat (split; [vm_compute; reflexivity|]). vm_compute; reflexivity. Qed.
 
 Lemma pool_rounds_variant_slow_cancel :
-  exists s q s1 s2, pool_run false (pinit [PAccept 0 8 1000000 2; PAccept 0 8 1000000 2] []) [(1, 16); (1, 16)] = Some (s, [0; 0], false) /\
+  exists s q s1 s2, pool_run false (pinit [PAccept 0 8 1000000 2; PAccept 0 8 1000000 2] [] []) [(1, 16); (1, 16)] = Some (s, [0; 0], false) /\
     p_pool s = Some q /\ pool_drop_rounds s q = DRet s1 /\ p_freed s1 = 2 /\
     pool_drop s q = DRet s2 /\ p_freed s2 = 0 /\ p_reaped s2 = [0; 1].
-Proof. do 4 eexists. vm_compute. repeat split; reflexivity. Qed.
+Proof. do 4 eexists. repeat (split; [vm_compute; reflexivity|]). vm_compute; reflexivity. Qed.
+
+(* ---- the events lock ------------------------------------------------------------------------------------ *)
+
+Lemma poll_linv ms s q s' r : LInv s -> poll true ms s q = (s', r) -> LInv s'.
+Proof.
+  intros Hi H. unfold poll in H. destruct q as [|sl q]; [inversion H; subst; exact Hi|].
+  destruct (reap sl); [inversion H; subst; exact Hi|]. destruct (ms <=? 0); [inversion H; subst; exact Hi|].
+  destruct (poll_wait true _ s (sl :: q) (ms * 1000)) as [[s1 q1] w] eqn:Ew.
+  pose proof (poll_wait_linv _ _ _ _ _ _ _ Hi Ew) as H1.
+  destruct w as [| |code].
+  - destruct q1 as [|sl1 r1]; [inversion H; subst; exact H1|]. destruct (reap sl1); inversion H; subst; exact H1.
+  - inversion H; subst; exact H1.
+  - destruct (err_class code); inversion H; subst; exact H1.
+Qed.
+
+Lemma drain_linv fuel : forall s q s', LInv s -> (drain fuel s q = DRet s' \/ drain fuel s q = DPanic s') -> LInv s'.
+Proof.
+  induction fuel as [|f IH]; intros s q s' Hi H.
+  - destruct q; cbn [drain] in H; destruct H as [H|H]; try discriminate. inversion H; subst. exact Hi.
+  - destruct q as [|sl q]; [cbn [drain] in H; destruct H as [H|H]; try discriminate; inversion H; subst; exact Hi|].
+    cbn [drain] in H. destruct (poll true 1000 s (sl :: q)) as [s1 r] eqn:Ep.
+    pose proof (poll_linv _ _ _ _ _ Hi Ep) as H1.
+    destruct r as [out|out|]; destruct (p_pool s1) as [q1|]; try (destruct H; discriminate).
+    + destruct (is_panic out); [destruct H as [H|H]; [discriminate|inversion H; subst; exact H1]|].
+      exact (IH _ _ _ H1 H).
+    + exact (IH _ _ _ H1 H).
+    + destruct H as [H|H]; [discriminate|inversion H; subst; exact H1].
+Qed.
+
+Lemma pool_op_linv pf0 s op arg s' out : LInv s -> pool_op pf0 s op arg = Some (s', out) -> LInv s'.
+Proof.
+  intros Hi H. unfold pool_op in H.
+  destruct (op =? 9); [inversion H; subst; exact Hi|]. destruct (op =? 10); [inversion H; subst; exact Hi|].
+  destruct (p_pool s) as [q|].
+  - destruct (op =? 1).
+    { unfold submit in H. destruct (match p_plan s with [] => _ | x :: _ => x end); inversion H; subst; exact Hi. }
+    destruct (op =? 2).
+    { destruct q as [|sl q]; [inversion H; subst; exact Hi|].
+      destruct (poll true arg (next_epoch s) (sl :: q)) as [s2 r] eqn:Ep.
+      pose proof (poll_linv _ _ _ _ _ (Hi : LInv (next_epoch s)) Ep) as H1.
+      destruct r; inversion H; subst; exact H1. }
+    destruct (op =? 3); [inversion H; subst; exact Hi|].
+    destruct (op =? 4); [destruct (cancel_all q); inversion H; subst; exact Hi|].
+    destruct (op =? 5).
+    { unfold pool_drop in H. destruct (cancel_all q) as [q1 n].
+      match type of H with match drain ?f ?s0 q1 with _ => _ end = _ =>
+        pose proof (fun s2 => drain_linv f s0 q1 s2 Hi) as Hd; destruct (drain f s0 q1) as [s2|s2|] end;
+        inversion H; subst; apply Hd; auto. }
+    destruct (op =? 6); [inversion H; subst; exact Hi|]. destruct (op =? 7); inversion H; subst; exact Hi.
+  - destruct (op =? 6); [inversion H; subst; exact Hi|]. destruct ((op =? 3) || (op =? 7)); inversion H; subst; exact Hi.
+Qed.
+
+Lemma pool_run_linv pf0 ops : forall s s' out b, LInv s -> pool_run pf0 s ops = Some (s', out, b) -> LInv s'.
+Proof.
+  induction ops as [|[op arg] ops IH]; intros s s' out b Hi H; cbn [pool_run] in H; [inversion H; subst; exact Hi|].
+  destruct (pool_op pf0 s op arg) as [[s1 o1]|] eqn:E; [|discriminate].
+  pose proof (pool_op_linv _ _ _ _ _ _ Hi E) as H1.
+  destruct (((op =? 1) || (op =? 2) || (op =? 5)) && is_panic o1); [inversion H; subst; exact H1|].
+  destruct (pool_run pf0 s1 ops) as [[[s2 o2] b2]|] eqn:E2; [|discriminate]. inversion H; subst. eapply IH; eassumption.
+Qed.
+
+(* (a) whatever the other threads do with the events lock: poll_completed never waits for an event while no event
+   handler is active - in the call log every libusb_wait_for_event directly follows a libusb_event_handler_active
+   that answered 1 *)
+Lemma pool_waits_only_for_active_handler pl evs lks ops s out b : pool_run false (pinit pl evs lks) ops = Some (s, out, b) ->
+  lk_idle (p_lk s) = 0 /\ ~ In (CWait false) (lk_log (p_lk s)) /\ waits_follow_active (lk_log (p_lk s)).
+Proof.
+  intros H. assert (Hi : LInv (pinit pl evs lks)) by (split; [reflexivity|exact I]).
+  destruct (pool_run_linv _ _ _ _ _ _ Hi H) as [H1 H2]. split; [exact H1|]. split; [apply log_ok_no_idle_wait, H2|apply log_ok_spec, H2].
+Qed.
+
+(* (b) a front transfer that is due is returned *)
+
+(* the transfer completes at the next event handling *)
+Definition due_at (epoch : Z) (sl : slot) : Prop :=
+  match sl_st sl with
+  | LFlight _ _ due clat cancel => due < epoch \/ (cancel = true /\ clat = O)
+  | LDone _ _ => True
+  | LUnknown => False
+  end.
+
+(* the rounds of a poll with `rem` microseconds to go, as long as nothing completes: rounds in which the holder of the
+   lock has left cost nothing; the first other round handles events if it is this thread's and the event handling
+   succeeds, or if another thread handles events before the time is up *)
+Fixpoint handles (lks : list lockent) (evs : list Z) (rem : Z) : bool :=
+  match lks with
+  | [] => (0 <? rem) && (hd 0 evs =? 0)
+  | LkOwn :: _ => (0 <? rem) && (hd 0 evs =? 0)
+  | LkGone :: r => handles r evs rem
+  | LkActive n :: _ => (0 <? rem) && (Z.max 0 n <? rem)
+  end.
+
+(* what poll returns for a transfer that completed with this status and length *)
+Definition done_out (status len : Z) : list Z :=
+  match completion status len with Some (inl n) => [0; n; 1] | Some (inr c) => [1; c] | None => [2] end.
+
+Lemma handles_pos lks evs rem : handles lks evs rem = true -> 0 < rem.
+Proof.
+  induction lks as [|[| |n] r IH]; cbn [handles]; auto; intros H; apply Bool.andb_true_iff in H; destruct H as [H _];
+    apply Z.ltb_lt in H; exact H.
+Qed.
+
+Lemma handles_gone k lks evs rem : handles (repeat LkGone k ++ lks) evs rem = handles lks evs rem.
+Proof. induction k as [|k IH]; cbn [repeat app handles]; auto. Qed.
+
+Lemma complete1_due e sl : due_at e sl -> reap sl = None ->
+  exists st ln, sl_st (fst (complete1 e sl)) = LDone st ln /\
+    (forall st0 ln0 due clat, sl_st sl = LFlight st0 ln0 due clat false -> st = st0 /\ ln = if st0 =? 0 then ln0 else 0).
+Proof.
+  unfold due_at, reap, complete1. destruct (sl_st sl) as [|st ln due cl c|st ln] eqn:E; [intros []| |discriminate].
+  intros Hd _. destruct c, cl; cbn [fst]; pf.
+  - do 2 eexists. split; [reflexivity|]. intros ? ? ? ? X; discriminate.
+  - destruct Hd as [Hd|[_ Hd]]; [|discriminate]. apply Z.ltb_lt in Hd. rewrite Hd. cbn [fst]; pf.
+    do 2 eexists. split; [reflexivity|]. intros ? ? ? ? X; discriminate.
+  - destruct Hd as [Hd|[Hd _]]; [|discriminate]. apply Z.ltb_lt in Hd. rewrite Hd. cbn [fst]; pf.
+    do 2 eexists. split; [reflexivity|]. intros ? ? ? ? X; inversion X; subst; auto.
+  - destruct Hd as [Hd|[Hd _]]; [|discriminate]. apply Z.ltb_lt in Hd. rewrite Hd. cbn [fst]; pf.
+    do 2 eexists. split; [reflexivity|]. intros ? ? ? ? X; inversion X; subst; auto.
+Qed.
+
+Lemma events_front e sl r : events e (sl :: r) = (fst (complete1 e sl) :: fst (events e r), snd (complete1 e sl) + snd (events e r)).
+Proof. cbn [events]. destruct (complete1 e sl), (events e r). reflexivity. Qed.
+
+(* rounds in which the holder of the lock has left change nothing and take no time: the wait ends in the first other
+   round, with the front transfer completed *)
+Lemma poll_wait_due fuel : forall s sl r rem, (contended (lkp s) < fuel)%nat -> due_at (p_epoch s) sl -> reap sl = None ->
+  handles (lkp s) (p_evs s) rem = true ->
+  exists s', poll_wait true fuel s (sl :: r) rem = (s', fst (events (p_epoch s) (sl :: r)), WDone) /\
+             p_reaped s' = p_reaped s.
+Proof.
+  induction fuel as [|f IH]; intros s sl r rem Hf Hd Hr Hh; [lia|].
+  pose proof (handles_pos _ _ _ Hh) as Hpos. cbn [poll_wait]. destruct (Z.leb_spec rem 0) as [X|_]; [lia|].
+  destruct (complete1_due _ _ Hd Hr) as [st [ln [Hc _]]].
+  assert (Hfd : front_done (fst (events (p_epoch s) (sl :: r))) = true).
+  { rewrite events_front. cbn [fst]. unfold front_done. rewrite Hc. reflexivity. }
+  pose proof (lk_round_tl (p_lk s)) as Hrt. unfold lkp in *. unfold lk_round in *.
+  destruct (lk_plan (p_lk s)) as [|[| |n0] lr] eqn:El; cbn [handles tl] in *.
+  - pf. apply Bool.andb_true_iff in Hh. destruct Hh as [_ Hh]. rewrite Hh.
+    destruct (events (p_epoch s) (sl :: r)) as [q1 n]. cbn [fst] in *. rewrite Hfd. eexists. split; [reflexivity|]. reflexivity.
+  - pf. apply Bool.andb_true_iff in Hh. destruct Hh as [_ Hh]. rewrite Hh.
+    destruct (events (p_epoch s) (sl :: r)) as [q1 n]. cbn [fst] in *. rewrite Hfd. eexists. split; [reflexivity|]. reflexivity.
+  - destruct Hrt as [Rc _].
+    destruct (IH (set_lk s (lk_contended (p_lk s) true false false)) sl r rem) as [s' [E1 E2]]; pf; try rewrite El; cbn [tl]; auto; try lia.
+    exists s'. split; [exact E1|exact E2].
+  - apply Bool.andb_true_iff in Hh. destruct Hh as [_ Hh]. rewrite Hh.
+    destruct (events (p_epoch s) (sl :: r)) as [q1 n]. cbn [fst] in *. rewrite Hfd. eexists. split; [reflexivity|]. reflexivity.
+Qed.
+
+Lemma pool_due_transfer_returned ms s sl r : due_at (p_epoch s) sl -> handles (lk_plan (p_lk s)) (p_evs s) (ms * 1000) = true ->
+  exists s' out r', poll true ms s (sl :: r) = (s', PReap out) /\ p_pool s' = Some r' /\ map sl_no r' = map sl_no r /\
+    p_reaped s' = p_reaped s ++ [sl_no sl] /\
+    (forall st ln due clat, sl_st sl = LFlight st ln due clat false -> out = done_out st (if st =? 0 then ln else 0)).
+Proof.
+  intros Hd Hh. unfold poll. destruct (reap sl) as [out|] eqn:Er.
+  { exists (pop_front s sl r), out, r. pf. repeat split; auto. intros st ln due clat E. unfold reap in Er. rewrite E in Er. discriminate. }
+  pose proof (handles_pos _ _ _ Hh) as Hpos. destruct (Z.leb_spec ms 0) as [X|_]; [lia|].
+  destruct (poll_wait_due (S (length (sl :: r) + contended (lk_plan (p_lk s)))) s sl r (ms * 1000)) as [s1 [Ew Erp]];
+    unfold lkp; auto; try lia.
+  rewrite Ew. destruct (complete1_due _ _ Hd Er) as [st [ln [Hc Hx]]].
+  pose proof (events_facts (p_epoch s) r) as [Hm _].
+  rewrite events_front. cbn [fst]. unfold reap at 1. rewrite Hc.
+  eexists _, _, _. split; [reflexivity|]. pf. split; [reflexivity|]. split; [exact Hm|].
+  pose proof (complete1_facts (p_epoch s) sl) as [Hno _]. cbn [fst] in Hno. rewrite Hno, Erp. split; [reflexivity|].
+  intros st0 ln0 due clat E. destruct (Hx _ _ _ _ E) as [-> ->]. reflexivity.
+Qed.
+
+(* (d) what (a) and (b) exclude: the wait without the re-check.  One transfer, due; in the round of the poll the events
+   lock is taken at the moment of libusb_try_lock_events and its holder has left before this thread looks: the code
+   goes round again and returns the transfer (8 bytes) without any time gone by; the variant waits for an event handler
+   that does not exist, for the whole time-out, and returns Timeout for a transfer that arrived completely and in time *)
+Lemma pool_norecheck_variant_times_out :
+  exists s q s1 s2 q2, pool_run false (pinit [PAccept 0 8 0 0] [] [LkGone]) [(1, 16)] = Some (s, [0], false) /\
+    p_pool s = Some q /\
+    poll true 10 (next_epoch s) q = (s1, PReap [0; 8; 1]) /\ p_pool s1 = Some [] /\
+      lk_waits (p_lk s1) = 0 /\ lk_clock (p_lk s1) = 0 /\
+    poll false 10 (next_epoch s) q = (s2, PFail [1; 6]) /\ p_pool s2 = Some q2 /\ length q2 = 1%nat /\
+      lk_idle (p_lk s2) = 1 /\ lk_clock (p_lk s2) = 10001 /\ In (CWait false) (lk_log (p_lk s2)).
+Proof. do 5 eexists. repeat (split; [vm_compute; reflexivity|]). vm_compute. auto. Qed.
